@@ -9,6 +9,9 @@ bound `sinceE < W` as long as `w`'s end-of-shard pair has not been consumed.
 namespace TDV.MPRI
 open TDV.MP
 
+/-- No fetch of any shard raises. -/
+def ShardsOk (c : Cfg) : Prop := ∀ (w j : Nat), (c.shards.getD w [])[j]? ≠ some Item.err
+
 /-- a data pair (its fetch answers) -/
 def isD (c : Cfg) (p : Nat × Nat) : Bool := decide (p.2 < bOf c p.1)
 
